@@ -17,18 +17,36 @@ using opentelemetry::sdk::common::OwnedAttributeValue;
 const int kAlts = 16;
 
 // Caller-side storage. release() overwrites every block with 0xDD and frees it.
+// overwrite_and_retain() is for APIs that are KNOWN to keep views (logs, finding F8): the
+// caller's bytes are replaced by a marker but the memory stays valid, so that reading the
+// stale view is a wrong value to compare, not an ASan abort.
+enum BlockKind
+{
+  BK_RAW = 0,   // numeric array / bytes: marker byte 0x5A (bool arrays: 0x01)
+  BK_CHARS,     // characters: marker 'Z'
+  BK_CSTR,      // NUL terminated characters: marker 'Z', terminator kept
+  BK_BOOLS,     // bool array: marker true
+  BK_VIEWS      // array of string_view: left intact (its character blocks are overwritten)
+};
 struct Scratch
 {
-  std::vector<std::pair<void *, size_t>> blocks;
-  void *alloc(size_t n)
+  struct Block
+  {
+    void *p;
+    size_t n;
+    int kind;
+  };
+  std::vector<Block> blocks;
+  void *alloc(size_t n, int kind = BK_RAW)
   {
     void *p = malloc(n ? n : 1);
-    blocks.emplace_back(p, n);
+    blocks.push_back({p, n, kind});
     return p;
   }
   const char *str(const std::string &s, bool nul_terminated = false)
   {
-    char *p = static_cast<char *>(alloc(s.size() + (nul_terminated ? 1 : 0)));
+    char *p = static_cast<char *>(
+        alloc(s.size() + (nul_terminated ? 1 : 0), nul_terminated ? BK_CSTR : BK_CHARS));
     memcpy(p, s.data(), s.size());
     if (nul_terminated)
       p[s.size()] = 0;
@@ -39,8 +57,33 @@ struct Scratch
   {
     for (auto &b : blocks)
     {
-      memset(b.first, 0xDD, b.second);
-      free(b.first);
+      memset(b.p, 0xDD, b.n);
+      free(b.p);
+    }
+    blocks.clear();
+  }
+  void overwrite_and_retain(std::vector<Block> &keep)
+  {
+    for (auto &b : blocks)
+    {
+      switch (b.kind)
+      {
+        case BK_CHARS:
+          memset(b.p, 'Z', b.n);
+          break;
+        case BK_CSTR:
+          if (b.n)
+            memset(b.p, 'Z', b.n - 1);
+          break;
+        case BK_BOOLS:
+          memset(b.p, 1, b.n);
+          break;
+        case BK_VIEWS:
+          break;
+        default:
+          memset(b.p, 0x5A, b.n);
+      }
+      keep.push_back(b);
     }
     blocks.clear();
   }
@@ -172,6 +215,67 @@ inline std::string expect(int alt, uint64_t seed)
   return o + "]";
 }
 
+inline bool is_scalar(int alt)
+{
+  return alt <= 4 || alt == 13;
+}
+
+// Canonical form the value reads as after overwrite_and_retain() (a stale view).
+inline std::string expect_marker(int alt, uint64_t seed)
+{
+  if (is_scalar(alt))
+    return expect(alt, seed);
+  if (alt == 5)
+    return "s:" + hexs(std::string(gen_string(seed, false).size(), 'Z'));
+  if (alt == 6)
+    return "s:" + hexs(std::string(gen_string(seed, true).size(), 'Z'));
+  int n         = gen_len(seed);
+  std::string o = alt == 7    ? "vb:["
+                  : alt == 8  ? "vi32:["
+                  : alt == 9  ? "vi64:["
+                  : alt == 10 ? "vu32:["
+                  : alt == 11 ? "vd:["
+                  : alt == 12 ? "vs:["
+                  : alt == 14 ? "vu64:["
+                              : "vu8:[";
+  for (int i = 0; i < n; ++i)
+  {
+    switch (alt)
+    {
+      case 7:
+        o += "1";
+        break;
+      case 8:
+        o += num((int32_t)0x5A5A5A5A);
+        break;
+      case 9:
+        o += num((int64_t)0x5A5A5A5A5A5A5A5All);
+        break;
+      case 10:
+        o += num((uint32_t)0x5A5A5A5Au);
+        break;
+      case 11: {
+        uint64_t bits = 0x5A5A5A5A5A5A5A5Aull;
+        double d;
+        memcpy(&d, &bits, 8);
+        o += dbl(d);
+        break;
+      }
+      case 12:
+        o += hexs(std::string(gen_string(seed + 1000 + i, true).size(), 'Z'));
+        break;
+      case 14:
+        o += num((uint64_t)0x5A5A5A5A5A5A5A5Aull);
+        break;
+      default:
+        o += num((unsigned)0x5A);
+        break;
+    }
+    o += ",";
+  }
+  return o + "]";
+}
+
 // Builds the non-owning AttributeValue for (alt, seed) in scratch storage.
 inline AttributeValue build(int alt, uint64_t seed, Scratch &sc)
 {
@@ -199,7 +303,7 @@ inline AttributeValue build(int alt, uint64_t seed, Scratch &sc)
   switch (alt)
   {
     case 7: {
-      bool *p = static_cast<bool *>(sc.alloc(n * sizeof(bool)));
+      bool *p = static_cast<bool *>(sc.alloc(n * sizeof(bool), BK_BOOLS));
       for (int i = 0; i < n; ++i)
         p[i] = h64(seed + 1000 + i) & 1;
       return AttributeValue(nostd::span<const bool>(p, n));
@@ -230,7 +334,7 @@ inline AttributeValue build(int alt, uint64_t seed, Scratch &sc)
     }
     case 12: {
       nostd::string_view *p =
-          static_cast<nostd::string_view *>(sc.alloc(n * sizeof(nostd::string_view)));
+          static_cast<nostd::string_view *>(sc.alloc(n * sizeof(nostd::string_view), BK_VIEWS));
       for (int i = 0; i < n; ++i)
         new (&p[i]) nostd::string_view(sc.view(gen_string(seed + 1000 + i, true)));
       return AttributeValue(nostd::span<const nostd::string_view>(p, n));
